@@ -46,6 +46,8 @@ func emit(e Event) {
 	if err != nil {
 		fatal(err)
 	}
+	emitMu.Lock()
+	defer emitMu.Unlock()
 	outW.Write(b)
 	outW.WriteByte('\n')
 	nEvents++
